@@ -155,19 +155,29 @@ def theorems_of(prop):
 
 
 def print_assumptions(prop, names, workdir):
-    """Fresh coqc run that re-reads the compiled property file and prints the assumptions of every theorem."""
-    path = os.path.join(workdir, "assumptions.v")
-    with open(path, "w") as f:
-        f.write("From FB Require Import Props.%s.\n" % prop)
-        for n in names:
-            f.write('Goal True. idtac "@@BEGIN %s". Abort.\nPrint Assumptions %s.\nGoal True. idtac "@@END". Abort.\n' % (n, n))
-    rc, out = run(["coqc", "-Q", COQ, "FB", path], cwd=workdir, timeout=600)
+    """Fresh coqc runs that re-read the compiled property file and print the assumptions of every theorem
+    (the theorems are split over a few coqc processes: Print Assumptions walks the whole dependency closure)."""
+    import concurrent.futures as _cf
+    chunks = [names[i::4] for i in range(4) if names[i::4]] or [[]]
+
+    def one(k_chunk):
+        k, chunk = k_chunk
+        path = os.path.join(workdir, "assumptions%d.v" % k)
+        with open(path, "w") as f:
+            f.write("From FB Require Import Props.%s.\n" % prop)
+            for n in chunk:
+                f.write('Goal True. idtac "@@BEGIN %s". Abort.\nPrint Assumptions %s.\nGoal True. idtac "@@END". Abort.\n' % (n, n))
+        return run(["coqc", "-Q", COQ, "FB", path], cwd=workdir, timeout=600)
+
+    with _cf.ThreadPoolExecutor(max_workers=4) as ex:
+        outs = list(ex.map(one, enumerate(chunks)))
     res = {}
-    if rc != 0:
-        return res, out
-    for m in re.finditer(r"@@BEGIN (\S+)\n(.*?)@@END", out, re.S):
+    allout = "\n".join(o for _, o in outs)
+    if any(rc != 0 for rc, _ in outs):
+        return res, allout
+    for m in re.finditer(r"@@BEGIN (\S+)\n(.*?)@@END", allout, re.S):
         res[m.group(1)] = m.group(2).strip()
-    return res, out
+    return res, allout
 
 
 def axioms_in(text):
@@ -470,7 +480,7 @@ def main(prop, spec):
         "coverage": {
             "obligations": len(names),
             "discharged": discharged,
-            "checker_cmd": "make -C /verif/coq -j16 %s && coqc -Q /verif/coq FB work/%s/assumptions.v  (Coq 8.16.1, full .vo build)" % (" ".join(targets), prop),
+            "checker_cmd": "make -C /verif/coq -j16 %s && coqc -Q /verif/coq FB work/%s/assumptions{0..3}.v  (Coq 8.16.1, full .vo build)" % (" ".join(targets), prop),
             "trusted_base": GLOBAL_TRUSTED + spec.get("trusted", []),
             "theorems": names,
             "assumptions_printed": assumptions_seen,
